@@ -176,7 +176,7 @@ def _worker(item):
 
 def plan(run):
     quick = run.tier == 'quick'
-    settings = [(16, None), (8, None), (32, (8, 8, 16)), (4, (4, 4, -1)), (2, None), (32, (16, 16, 4))]
+    settings = [(16, None), (8, None), (32, (8, 8, 16)), (4, (4, 4, -1)), (2, None), (32, (16, 16, 4)), (32, (4, 8, 32)), (16, (8, 4, -1)), (16, (4, 16, -1))]
     set2d = [(16, None), (8, (1, 4, -1)), (32, (1, 8, 128)), (4, None)]
     cases = []
     k = 0
